@@ -230,3 +230,38 @@ INVARIANTS ReadsInBounds DataReadsInBounds AcceptedIsUsable EmitDone
     if em:
         ck.sample({"module": "ClassMap", "edits": em[len(em) // 2]["edits"], "outcome": em[len(em) // 2]["outcome"]})
     return cases
+
+
+def sparse_cases(ck, tier, seed, tmp, exe):
+    """spec/Sparse.tla: every list of attribute runs of the bounded family is written into a font's Glat table and read back."""
+    from fontgen import sparsefont
+    q = tier == "quick"
+    out = os.path.join(tmp, "sparse.ndjson")
+    r = vlib.tlc("Sparse.tla", "Sparse_quick.cfg" if q else "Sparse_thorough.cfg", out_file=out, timeout=6000, coverage=False, heap="24g", parse=False)
+    if r.violation:
+        ck.violation("TLC: %s violated in Sparse (glyph attribute storage model)" % r.violation, {"why": "Sparse model", "trace": vlib.tlc_error_trace(r.out)})
+        return False
+    ck.add_tlc("Sparse(attribute runs -> packed array, lookups)", r)
+    rn = vlib.tlc("Sparse.tla", "Sparse_neg.cfg", timeout=3000, coverage=False)
+    if rn.violation not in ("LookupsInBounds", "WritesInBounds", "LookupsRight"):
+        raise vlib.Broken("negative control of Sparse (key order not checked) not refuted: %r" % rn.violation)
+    stride = 9 if q else 61
+    cf = os.path.join(tmp, "sparse_cases.ndjson")
+    n = 0
+    with open(cf, "w") as fo:
+        for k, line in enumerate(open(out)):
+            if (k + seed) % stride:
+                continue
+            c = json.loads(line)
+            runs = [(x["k"], x["vals"]) for x in c["runs"]]
+            fo.write(json.dumps({"id": "sp%d" % k, "font_hex": sparsefont.build(runs).hex(), "gid": 1, "valid": c["valid"], "nchunks": c["nchunks"],
+                                 "attrs": c["attrs"], "numattrs": sparsefont.NUM_ATTRS}) + "\n")
+            n += 1
+            if n == 500:
+                ck.sample({"module": "Sparse", "runs": c["runs"], "valid": c["valid"]})
+    h = vlib.run_harness(exe, ["sparse", cf], timeout=6000)
+    vlib.absorb(ck, h)
+    if h.summary:
+        ck.traces += h.summary["extra"]["loads"]
+        ck.extra.setdefault("impl", {})["sparse"] = dict(h.summary["extra"], model_drift=h.summary["drift"], cases=n, stride=stride)
+    return True
